@@ -991,6 +991,7 @@ fn process_arm(
             stdin: input.to_vec(),
             stdin_kind: if i == 1 { StdinKind::Pipe } else { StdinKind::File },
             shared_out_err: false,
+            removed_cwd: false,
         };
         let mut r = procworld::run(&spec, &scratch, &format!("c10-{}", i))?;
         r.stderr = procworld::strip_sgr(&r.stderr);
